@@ -96,6 +96,23 @@ Proof.
     rewrite IH; [rewrite Hm'; reflexivity|exact Hnn'|rewrite Hm'; exact H0|rewrite Hm'; exact Hlt].
 Qed.
 
+(** when no sum reaches 2^64 the repaired (checked) loop computes the same map as the wrapping one *)
+Lemma mt_map2c_ok bs : forall m,
+  (forall b, In b bs -> 0 <= snd b) ->
+  (forall k, 0 <= getz k m /\ getz k m + sumk k bs < two64) ->
+  mt_map2c bs m = Some (fold_left step2 bs m).
+Proof.
+  induction bs as [|b bs IH]; intros m Hnn Hk; cbn [mt_map2c fold_left]; [reflexivity|].
+  assert (Hnn' : forall b', In b' bs -> 0 <= snd b') by (intros b' Hin; apply Hnn; right; exact Hin).
+  pose proof (Hnn b (or_introl eq_refl)) as Hb. destruct (Hk (bkey b)) as [H0 H1]. rewrite sumk_cons_same in H1.
+  pose proof (sumk_nonneg (bkey b) bs Hnn') as Hs.
+  assert (Hchk : (two64 - 1 - getz (bkey b) m <? snd b) = false) by lia. rewrite Hchk.
+  unfold step2 at 2. rewrite (Z.mod_small (getz (bkey b) m + snd b)) by lia.
+  apply IH; [exact Hnn'|]. intros k. destruct (eq_dec (bkey b) k) as [<-|Hne].
+  - rewrite getz_set_same. lia.
+  - rewrite getz_set_other by congruence. destruct (Hk k) as [A B]. rewrite (sumk_cons_other k b bs Hne) in B. lia.
+Qed.
+
 (** ** mtMap1 of an export is the list of the exported (class, MT) -> supply pairs *)
 Definition setkv {K V} `{EqDec K} (m : list (K * V)) (kv : K * V) := set (fst kv) (snd kv) m.
 
@@ -228,13 +245,18 @@ Section Inv.
     - unfold getz at 1. simpl. rewrite <- getz_sup. pose proof (getz_sup_bound k). lia.
   Qed.
 
-  Lemma mt_validate_export : validate (export s) = true.
+  Lemma mt_validate_export fx : validate fx (export s) = true.
   Proof.
     destruct inv_parts as (Hcs & Hin & Hss & Hkeys & Hsup & Hlt & Hbs & Hb & _).
     assert (Hexp : export s = mkGenesis (map (expc (msupply s)) (cols s)) (bals s)) by reflexivity.
     rewrite Hexp. unfold validate. cbn [g_cols g_bals]. cbv zeta.
+    assert (Hm2 : (if fx then mt_map2c (bals s) [] else Some (mt_map2 (bals s))) = Some (mt_map2 (bals s))).
+    { destruct fx; [|reflexivity]. unfold mt_map2. apply mt_map2c_ok; [exact bal_nonneg|].
+      intros k. unfold getz at 1 2. simpl. rewrite <- getz_sup. pose proof (getz_sup_bound k). lia. }
+    rewrite Hm2.
     rewrite mt_map1_export by (rewrite <- Hkeys; exact nodup_sup_keys).
-    apply andb_true_iff. split; [apply andb_true_iff; split|].
+    apply andb_true_iff. split; [apply andb_true_iff; split; [apply andb_true_iff; split|]|].
+    - destruct fx; [|reflexivity]. rewrite forallb_forall in *. intros b Hbin. specialize (Hb b Hbin). lia.
     - (* every balance's class is a collection *)
       rewrite forallb_forall. intros b Hbin. rewrite map_map. cbn [expc fst snd].
       apply existsb_Zeqb_In. change (map (fun x : col => fst x) (cols s)) with (map fst (cols s)).
@@ -376,9 +398,9 @@ Qed.
 Definition norm (s : state) : state :=
   mkState (map (curc (msupply s)) (cols s)) (msupply s) (dsupply s) (bals s) (dseq s) (mseq s).
 
-Lemma mt_roundtrip s : invb s = true -> import (export s) = Some (norm s).
+Lemma mt_roundtrip fx s : invb s = true -> import fx (export s) = Some (norm s).
 Proof.
-  intros Hinv. pose proof (mt_validate_export s Hinv) as Hval.
+  intros Hinv. pose proof (mt_validate_export s Hinv fx) as Hval.
   destruct (inv_parts s Hinv) as (Hcs & Hin & Hss & Hkeys & Hsup & Hlt & Hbs & Hb & Hds & Hdq & Hmq).
   assert (Hexp : export s = mkGenesis (map (expc (msupply s)) (cols s)) (bals s)) by reflexivity.
   unfold import. rewrite Hval. cbn [negb]. rewrite Hexp. cbn [g_cols g_bals].
@@ -408,29 +430,43 @@ Proof.
   rewrite exp_mts_idem. reflexivity.
 Qed.
 
-Lemma mt_export_validates_lemma s : invb s = true -> validate (export s) = true.
-Proof. exact (mt_validate_export s). Qed.
+Lemma mt_export_validates_lemma s : invb s = true -> validate false (export s) = true.
+Proof. intros Hinv. exact (mt_validate_export s Hinv false). Qed.
+
+(** ... and also the stricter variant (owners are addresses, no sum exceeds uint64) that InitGenesis relies on *)
+Lemma mt_export_wellformed_lemma s : invb s = true -> validate true (export s) = true.
+Proof. intros Hinv. exact (mt_validate_export s Hinv true). Qed.
+
+Lemma mt_import_total_lemma s : invb s = true -> import false (export s) <> None.
+Proof. intros Hinv. rewrite (mt_roundtrip false s Hinv). discriminate. Qed.
 
 Lemma mt_export_fixpoint_lemma s :
-  invb s = true -> exists s', import (export s) = Some s' /\ export s' = export s.
+  invb s = true -> exists s', import false (export s) = Some s' /\ export s' = export s.
 Proof. intros Hinv. exists (norm s). split; [apply mt_roundtrip; exact Hinv|apply export_norm]. Qed.
 
 (** classes, MTs with their current supply, supplies, balances; and the two sequences *)
 Lemma mt_queries_preserved_lemma s :
   invb s = true ->
-  exists s', import (export s) = Some s' /\ queries s' = queries s /\ dseq s' = dseq s /\ mseq s' = mseq s.
+  exists s', import false (export s) = Some s' /\ queries s' = queries s /\ dseq s' = dseq s /\ mseq s' = mseq s.
 Proof.
   intros Hinv. exists (norm s). split; [apply mt_roundtrip; exact Hinv|split; [apply queries_norm|split; reflexivity]].
 Qed.
 
-(** ValidateGenesis adds the balances in uint64 arithmetic (the sum wraps), InitGenesis refuses the
-    overflow: two balances of 2^63 of an MT exported with supply 0 validate and make the import panic *)
-Lemma mt_import_total_refuted_lemma : exists g, validate g = true /\ import g = None.
+(** Remark (outside C12): ValidateGenesis adds the balances in uint64 arithmetic (the sum wraps), InitGenesis
+    refuses the overflow: a hand-made genesis with two balances of 2^63 of an MT listed with supply 0 validates
+    and makes the import panic *)
+Lemma mt_handmade_genesis_can_panic_lemma : exists g, validate false g = true /\ import false g = None.
 Proof.
   exists (mkGenesis [((1, (0, 0, 0)), [(1, (0, 0))])]
                     [((0, 1, 1), 9223372036854775808); ((1, 1, 1), 9223372036854775808)]).
   split; vm_compute; reflexivity.
 Qed.
+
+(** ... which the stricter variant rejects *)
+Lemma mt_overflow_rejected_lemma :
+  validate true (mkGenesis [((1, (0, 0, 0)), [(1, (0, 0))])]
+                           [((0, 1, 1), 9223372036854775808); ((1, 1, 1), 9223372036854775808)]) = false.
+Proof. vm_compute. reflexivity. Qed.
 
 Definition wit_s : state :=
   mkState [(1, ((0, 0, 0), [(1, (0, 7)); (2, (1, 0))])); (2, ((1, 1, 0), []))]
